@@ -388,6 +388,23 @@ def extract(repo="/repo"):
     if not opts:
         raise ExtractError("DEFAULT_SOCKET_OPTION not found")
     T["defaultSockOpts"] = [f"{a}|{b}|{c}" for a, b, c in opts]
+    # the inner `_recv()` of `recv(sock, bufsize)`: the handlers of its try, in order — `Model.Glue.recvInner` reads
+    # "want-read: wait and read again" BEFORE the errno test (SSLWantReadError is an OSError: the order decides)
+    rfn = _find(so.body, ast.FunctionDef, "recv")
+    order = None
+    if rfn is not None:
+        inner = _find(rfn.body, ast.FunctionDef, "_recv")
+        if inner is not None:
+            for st in inner.body:
+                if isinstance(st, ast.Try):
+                    order = []
+                    for h in st.handlers:
+                        t = h.type
+                        order.append(t.attr if isinstance(t, ast.Attribute) else getattr(t, "id", "?"))
+                    break
+    if order is None:
+        raise ExtractError("_socket.recv: inner _recv() with a try block not found")
+    T["glueRecvHandlers"] = order
 
     # ------------------------------------------------------------------ _app.py
     app = _parse(repo, "_app.py")
